@@ -5,6 +5,9 @@
 mod engine;
 mod wire;
 mod gen;
+mod model;
+mod traffic;
+mod syncdrv;
 mod props;
 
 use engine::{Ctx, Tier};
